@@ -156,7 +156,7 @@ def decide(prop, cfg, tier, seed, t0, update_baseline, only):
         os.makedirs(os.path.join(ROOT, 'replays'), exist_ok=True)
         hint_file = os.path.join(ROOT, 'replays', '%s.hint.json' % prop)
         with open(hint_file, 'w') as f:
-            json.dump(dict(functions=hint, models=models, seed=seed, budget_s=budget, known=my_known, prop=prop), f)
+            json.dump(dict(functions=hint, models=models, seed=seed, budget_s=budget, known=my_known, prop=prop, tier=tier), f)
         rc, out, err = run_native(os.path.join(ROOT, harness), [hint_file], timeout=budget + 60)
         hres = dict(rc=rc, out=out[-4000:], err=err[-1500:])
         try:
